@@ -86,6 +86,7 @@ def run(ctx):
     for t in ("data.raw-opt", "data.raw", "data.inst-opt", "data.inst", "data.opt", "data.typed", "data.none"):
         if ctx.tags.get(t, 0) == 0:
             ctx.violation("TAG", [t], "corpus", f"a corpus program exercising {t}", "none", "corpus adequacy (DESIGN-appendix A 24)")
+    C.corpus_adequacy(ctx, enforce=False)
     ctx.floor("C09.mode", 30)
     return check.finish(
         ctx, "translation_validation",
